@@ -702,6 +702,17 @@ CLAIMS["C01"]["note"] += (
     "fragment has no closures yet); what is new is the proved typing invariant (traitcall_static_dispatch) and the per-program "
     "static-dispatch oracle on the real Mono dumps (coverage.type_soundness_and_static_dispatch).")
 
+CLAIMS["C12"]["note"] += (
+    " Round 11 follow-up — now PROVED for every token list (no hypothesis): grammar_events_wellformed (the grammar model's event "
+    "list resolves — every forward-parent chain lands on an Open —, is balanced with root FILE and its Advance count is the number of "
+    "adv leaves; Lemmas/GrammarFlat.lean rf_spec/rf_balanced for every item tree incl. the wrap/precede encoding, Lemmas/GrammarKinds.lean "
+    "no TombStone kind). parse_lossless_partial_budget composes lex_tiles, the grammar model and buildTree_lossless into 'tree text = "
+    "input, leaves = tokens, nothing dropped, all ranges in the text' for every text; its only hypothesis is that the model's call "
+    "budget does not run out (grammar_terminates — still NOT proved, observed oof=false on every tie input).")
+CLAIMS["C04"]["note"] += (
+    " Follow-up: grammar_advances_exact (exactly one Advance per token consumed while the cursor is inside the input, every grammar "
+    "function; at the real end advance() still pushes an Advance that build_tree ignores — example `if 1 { }`: 5 Advances, 4 tokens).")
+
 
 def main():
     checks = []
